@@ -50,6 +50,7 @@ def pEv : P Ev := do
     let s ← nat; let l ← nat; let v ← nat; let ci ← nat; let st ← nat; let k ← nat
     pure (.electedAs s l (v ≠ 0) ci st (k ≠ 0))
   else if t = "MAJ" then do let tt ← nat; let n ← nat; let ok ← nat; pure (.majority tt n (ok ≠ 0))
+  else if t = "MAJS" then do let tt ← nat; let n ← nat; let ok ← nat; pure (.majorityStale tt n (ok ≠ 0))
   else if t = "REJOIN" then do
     let s ← nat; let t0 ← nat; let l0 ← nat; let tm0 ← nat; let t1 ← nat; let l1 ← nat; let tm1 ← nat
     pure (.rejoin s t0 l0 tm0 t1 l1 tm1)
